@@ -27,6 +27,7 @@ def fail(key, text, props, **kw):
 def interp_1d(xs, fs, x):
     """the C10 statement for a 1-D table: exact on the grid, linear between, clamped outside, signs ignored"""
     xs = [abs(v) for v in xs]; fs = [abs(v) for v in fs]; x = abs(x)
+    o = sorted(range(len(xs)), key=lambda j: xs[j]); xs = [xs[j] for j in o]; fs = [fs[j] for j in o]      # an axis written with negative values falls in magnitude
     if x <= xs[0]: return fs[0]
     if x >= xs[-1]: return fs[-1]
     j = bisect.bisect_right(xs, x) - 1
@@ -38,7 +39,8 @@ def cell_range_2d(tab, key, io, vi):
     """range of the corner values of the enclosing cell (after clamping) of a 2-D table"""
     xs = [abs(v) for v in tab["io"]]; ys = [abs(v) for v in tab["vi"]]
     order = sorted(range(len(ys)), key=lambda j: ys[j]); ys = [ys[j] for j in order]
-    z = [[abs(v) for v in tab[key][j]] for j in order]
+    ox = sorted(range(len(xs)), key=lambda i_: xs[i_]); xs = [xs[i_] for i_ in ox]
+    z = [[abs(tab[key][j][i_]) for i_ in ox] for j in order]
     x = min(max(abs(io), xs[0]), xs[-1]); y = min(max(abs(vi), ys[0]), ys[-1])
     i = min(max(bisect.bisect_right(xs, x) - 1, 0), len(xs) - 2) if len(xs) > 1 else 0
     j = min(max(bisect.bisect_right(ys, y) - 1, 0), len(ys) - 2) if len(ys) > 1 else 0
@@ -171,7 +173,7 @@ def _check_table(model, df, sys_=None, ta=25.0, energy=False, phase_arg="", tol=
                 cr = rows.get((c, ph))
                 if cr is not None and csel == name: isum += fl(cr["Iin (A)"])
             if not cl(iout, isum):
-                F.append(fail("row.iout", "%s [%s]: Iout %g != sum of the input currents of the children it feeds %g" % (name, ph, iout, isum), ["C01", "C05"]))
+                F.append(fail("row.iout", "%s [%s]: Iout %g != sum of the input currents of the children it feeds %g" % (name, ph, iout, isum), ["C01", "C05", "C04"]))
             # ---------------- laws
             K, P = node.K, node.P
             dead_in = (vin == 0.0)
